@@ -52,7 +52,7 @@ impl Rec {
         let ms = t0.elapsed().as_millis();
         self.calls += 1;
         let (res, whr, val) = match r {
-            Err(p) => ("panic".to_string(), p.split(": ").next().unwrap_or("").replace("/repo/", ""), None),
+            Err(p) => ("panic".to_string(), p.split(": ").next().unwrap_or("").replace(&format!("{}/", crate::util::repo_root()), ""), None),
             Ok(_) if ms > BUDGET_MS => { self.slow += 1; ("timeout".to_string(), format!("{}ms", ms), None) }
             Ok(Ok(v)) => ("ok".to_string(), String::new(), Some(v)),
             Ok(Err(_)) => ("err".to_string(), String::new(), None),
@@ -303,7 +303,7 @@ pub fn run(args: &[String]) -> i32 {
     let traces = arg(args, "--traces").expect("--traces");
     let out_path = arg(args, "--out").expect("--out");
     let thorough = flag(args, "--thorough");
-    let (contents, _) = Contents::load(arg(args, "--contents").unwrap_or("/verif/data/contents.json"));
+    let (contents, _) = Contents::load(&arg(args, "--contents").map(|s| s.to_string()).unwrap_or_else(crate::util::contents_default));
     let mut rec = Rec { w: std::io::BufWriter::new(std::fs::File::create(traces).expect("traces")), id: 0, calls: 0, inputs: 0, slow: 0 };
     let mut rng = Rng::new(seed_from_env());
     let mut samples: Vec<Value> = Vec::new();
@@ -651,7 +651,7 @@ pub fn run(args: &[String]) -> i32 {
                         "legacy_extract" => { let _ = extract_field_content(&input, "62F"); let _ = extract_block4(&input); }
                         _ => { if let Err(e) = SwiftParser::parse_auto(&input) { let _ = e.to_string(); let _ = e.debug_report(); let _ = e.brief_message(); let _ = e.format_with_context(&input); } }
                     });
-                    if let Err(p) = res { panicked = Some(p.split(": ").next().unwrap_or("").replace("/repo/", "")); }
+                    if let Err(p) = res { panicked = Some(p.split(": ").next().unwrap_or("").replace(&format!("{}/", crate::util::repo_root()), "")); }
                     best = best.min(t0.elapsed().as_secs_f64());
                 }
                 last_secs = best;
